@@ -972,7 +972,7 @@ def root_kind(repo: Repo, f: FuncInfo, e: ast.AST, depth: int = 0) -> str:
             return 'essence' if copied and k == 'body' else k
         if e.id in param_names(f):
             for a in f.params():
-                if a.arg == e.id and a.annotation is not None and 'Essence' in src(a.annotation):
+                if a.arg == e.id and (repo.ann_class(f.module, a.annotation) or '').endswith('bodies.BodyEssence'):
                     return 'essence'
     return 'other'
 
